@@ -6,6 +6,7 @@ package main
 
 import (
 	"fmt"
+	"go/token"
 	"go/types"
 	"regexp"
 	"sort"
@@ -601,6 +602,82 @@ func registerLibIntrinsics() {
 	}
 
 	// strconv
+	// strings.Replacer with single-byte old strings (the byte-escaping idiom)
+	I["strings.NewReplacer"] = func(in *Interp, fr *frame, args []Value) (Value, bool) {
+		sl, ok := args[0].(Slice)
+		if !ok || sl.symLen != nil {
+			return nil, false
+		}
+		var pairs []string
+		for i := 0; i < sl.n; i++ {
+			str, ok := (*sl.arr)[sl.off+i].(Str)
+			if !ok {
+				return nil, false
+			}
+			c, ok := str.Concrete()
+			if !ok {
+				return nil, false
+			}
+			pairs = append(pairs, c)
+		}
+		if len(pairs)%2 != 0 {
+			fr.tpanic("explicit", CStr("strings.NewReplacer: odd argument count"))
+		}
+		cell := new(Value)
+		*cell = Struct{}
+		o := in.newObj("replacer")
+		o.F["pairs"] = strSliceValue(pairs)
+		in.side[cell] = o
+		return cell, true
+	}
+	I["(*strings.Replacer).Replace"] = func(in *Interp, fr *frame, args []Value) (Value, bool) {
+		o := in.sideObj(args[0], "replacer")
+		if o == nil {
+			return nil, false
+		}
+		ps := o.F["pairs"].(Slice)
+		var olds, news []string
+		for i := 0; i+1 < ps.n; i += 2 {
+			a, _ := (*ps.arr)[ps.off+i].(Str).Concrete()
+			b, _ := (*ps.arr)[ps.off+i+1].(Str).Concrete()
+			if len(a) != 1 {
+				in.unsupported("strings.Replacer with a multi-byte or empty old string %q", a)
+			}
+			olds, news = append(olds, a), append(news, b)
+		}
+		src, ok := args[1].(Str)
+		if !ok {
+			return nil, false
+		}
+		if c, ok := src.Concrete(); ok {
+			var kv []string
+			for i := range olds {
+				kv = append(kv, olds[i], news[i])
+			}
+			return CStr(strings.NewReplacer(kv...).Replace(c)), true
+		}
+		n, ok := src.ConcreteLen()
+		if !ok || n > 8 {
+			in.unsupported("strings.Replacer.Replace of a symbolic string of unbounded length")
+		}
+		out := Str{}
+		for i := 0; i < n; i++ {
+			b := in.strByte(src, i)
+			done := false
+			for k := range olds {
+				eq := in.binopT(fr, token.EQL, types.Typ[types.Uint8], types.Typ[types.Uint8], b, Int(olds[k][0]))
+				if in.branch(eq, "replacer byte") {
+					out = concatStr(out, CStr(news[k]))
+					done = true
+					break
+				}
+			}
+			if !done {
+				out = concatStr(out, strFromValues([]Value{b}))
+			}
+		}
+		return out, true
+	}
 	I["strconv.FormatInt"] = func(in *Interp, fr *frame, args []Value) (Value, bool) {
 		base := in.concreteInt(fr, args[1], "FormatInt base")
 		switch x := args[0].(type) {
@@ -784,6 +861,24 @@ func registerLibIntrinsics() {
 		o.str = p
 		return nil, true
 	}
+	// strings.Builder: the same side-object model
+	for _, mth := range []string{"Write", "WriteString", "WriteByte", "String", "Len"} {
+		I["(*strings.Builder)."+mth] = I["(*bytes.Buffer)."+mth]
+	}
+	I["(*strings.Builder).Grow"] = func(in *Interp, fr *frame, args []Value) (Value, bool) { return nil, true }
+	I["(*bytes.Buffer).Grow"] = I["(*strings.Builder).Grow"]
+	wrRune := func(in *Interp, fr *frame, args []Value) (Value, bool) {
+		r, ok := args[1].(Int)
+		if !ok {
+			in.unsupported("WriteRune of a symbolic rune")
+		}
+		o := buf(in, args[0])
+		enc := string(rune(int32(r)))
+		o.str = concatStr(o.str, CStr(enc))
+		return Tuple{Int(len(enc)), Iface{}}, true
+	}
+	I["(*strings.Builder).WriteRune"] = wrRune
+	I["(*bytes.Buffer).WriteRune"] = wrRune
 	// reading drains the buffer (the decoded packet's Data is such a buffer)
 	I["io.ReadAll"] = func(in *Interp, fr *frame, args []Value) (Value, bool) {
 		it, ok := args[0].(Iface)
@@ -811,6 +906,7 @@ func registerLibIntrinsics() {
 		buf(in, args[0]).str = Str{}
 		return nil, true
 	}
+	I["(*strings.Builder).Reset"] = I["(*bytes.Buffer).Reset"]
 	newBuf := func(in *Interp, fr *frame, args []Value) (Value, bool) {
 		s, ok := in.sliceToSym(fr, args[0])
 		if !ok {
@@ -1015,7 +1111,7 @@ func (in *Interp) writeTo(fr *frame, w Value, s Str) {
 	}
 	switch x := it.V.(type) {
 	case *Value:
-		if x != nil && it.T.String() == "*bytes.Buffer" {
+		if x != nil && (it.T.String() == "*bytes.Buffer" || it.T.String() == "*strings.Builder") {
 			o := in.sideObj(x, "buffer")
 			o.str = concatStr(o.str, s)
 			return
@@ -1028,13 +1124,26 @@ func (in *Interp) writeTo(fr *frame, w Value, s Str) {
 			if o, ok := (*x).(*Obj); ok && o.Kind == "osfile" {
 				return
 			}
+			if it.T.String() == "*os.File" {
+				return
+			}
+		}
+		if x != nil {
+			if o := in.side[x]; o != nil && o.Kind == "bufwriter" {
+				in.unsupported("fmt.Fprintf to a bufio.Writer")
+			}
 		}
 	case *Obj:
 		if x.Kind == "capture" || x.Kind == "buffer" {
 			x.str = concatStr(x.str, s)
+			return
 		}
-		return
+		if x.Kind == "opaque" || x.Kind == "logger" {
+			return
+		}
+		in.unsupported("formatted write to a %s object", x.Kind)
 	}
+	in.unsupported("formatted write to %v", it.T)
 }
 
 // ---- encoding/binary (sid.go layouts only) ----
